@@ -283,18 +283,20 @@ func ruleR18_6(w *World, r *Report) {
 	}
 	found := false
 	for _, f := range fin.AnonFuncs {
-		send := firstCall(f, "sendNotification")
-		if send == nil {
+		d := deepOfDepth(f, 1)
+		sends := d.calls("NotifyAfterPushPull")
+		if len(sends) == 0 {
 			continue
 		}
 		found = true
-		paths, _ := reachingLits(f, nil, send)
-		uncond := len(paths) == 1 && len(paths[0]) == 0
+		send := sends[0]
+		paths, ok := d.paths(send, nil)
+		uncond := ok && len(paths) == 1 && len(paths[0].strs) == 0
 		before := true
-		if snap := firstCall(f, "reserveUpdateSnapshot"); snap != nil {
-			before = instrDominates(send, snap)
+		for _, snap := range d.calls("reserveUpdateSnapshot") {
+			before = before && d.dominates(send, snap)
 		}
-		r.Check(uncond && before, "finalize$goroutine/notify first", u.Pos(send.Pos()), "sendNotification unconditional and first", "the notification depends on or follows the snapshot refresh: a committed push is not announced when the refresh fails or hangs")
+		r.Check(uncond && before, "finalize$goroutine/notify first", d.pos(u, send), "notification unconditional and first", "the notification depends on or follows the snapshot refresh: a committed push is not announced when the refresh fails or hangs")
 	}
 	if !found {
 		r.Bad("finalize$goroutine/notify first", u.Pos(fin.Pos()), "the post-reply goroutine no longer sends the notification")
